@@ -203,13 +203,20 @@ def known_predicate(fn):
 
 
 def load_known(pid):
-    path = os.path.join(VERIF, "known_findings.json")
-    if not os.path.exists(path):
-        return []
-    with open(path) as f:
-        allk = json.load(f)
+    """known_findings.json (the committed, merged file) plus known/<pid>.json (per-property
+    source the merge tool reads); predicates from harness/known.py and harness/known_<pid>.py."""
+    import importlib
+    allk = []
+    for path in (os.path.join(VERIF, "known_findings.json"), os.path.join(VERIF, "known", pid + ".json")):
+        if os.path.exists(path):
+            with open(path) as f:
+                for k in json.load(f):
+                    if k["property"] == pid and k["id"] not in [x["id"] for x in allk]:
+                        allk.append(k)
     from harness import known  # noqa: F401  (registers predicates)
-    return [k for k in allk if k["property"] == pid]
+    if os.path.exists(os.path.join(VERIF, "harness", "known_%s.py" % pid.lower())):
+        importlib.import_module("harness.known_" + pid.lower())
+    return allk
 
 
 # ---- Lean build + audit -----------------------------------------------------------------
@@ -343,4 +350,5 @@ def write_evidence(ctx, mod, nviol, wall):
 
 def impl_frames(tb):
     """Does a traceback pass through the repository's code?"""
-    return any("/repo/" in fr.filename or REPO in fr.filename for fr in traceback.extract_tb(tb))
+    return any(("/pymoca/" in fr.filename or "/tools/compiler" in fr.filename) and not fr.filename.startswith(VERIF)
+               for fr in traceback.extract_tb(tb))
